@@ -288,6 +288,9 @@ def fj(field):
             'd': [[[int(round(x.real)), int(round(x.imag))] for x in row] for row in d]}
 
 
+MOVED = []        # fields found somewhere else than where they were constructed (filled by record_sessions)
+
+
 def record_sessions(lentil, rng, nsess, nsteps):
     """code -> spec: sessions in which results feed later operations"""
     fld = lentil.field
@@ -298,15 +301,21 @@ def record_sessions(lentil, rng, nsess, nsteps):
         # their documented offset attribute: a field is where its offset says it is at the time it is used
         reuse = rng.random() < 0.3
         shared_off = [0, 0]
+        intended = []
         for _ in range(4):
             sh = rng.choice([(2, 2), (2, 3), (3, 2), (3, 3), (1, 3), (4, 2)])
             f = mkfield(rng, sh, (rng.randint(-3, 3), rng.randint(-3, 3)))
+            intended.append(tuple(f['off']))
             if reuse:
                 shared_off[0], shared_off[1] = f['off']
                 pool.append(lentil.field.Field(data=np.array([[complex(*x) for x in row] for row in f['d']]), offset=shared_off))
             else:
                 pool.append(real_field(lentil, f))
         shared_off[0], shared_off[1] = 5, -5
+        # (every field is where it was put, whatever the caller did to the list since)
+        for fobj, want in zip(pool, intended):
+            if reuse and tuple(int(v) for v in fobj.offset) != tuple(want):
+                MOVED.append({'constructed_at': list(want), 'now_at': [int(v) for v in fobj.offset], 'callers_list': list(shared_off)})
         pool.append(lentil.field.Field(data=np.array(complex(*gint(rng, 1, 2))), offset=[0, 0]))     # an infinite constant
         for k in range(nsteps):
             act = rng.choice(('mul', 'mul', 'merge', 'reduce', 'insert'))
@@ -387,6 +396,28 @@ def run(ctx):
     # ---- code -> spec: sessions whose results feed later operations, validated by TLC (Trace_C06) ----------------------
     rng = random.Random(606 + ctx.seed)
     events = record_sessions(lentil, rng, 150 if q else 1500, 8)
+    for mv in MOVED[:3]:
+        ctx.violation({'kind': 'field-moves-with-the-list-its-offset-was-given-in'}, mv, case=None)
+    del MOVED[:]
+    # extent queries in ANY order and with the rarely used parent_shape option: each answer is the set of pixel coordinates of the
+    # array (centre convention), relative to the origin or to the corner of the parent - whatever was asked before
+    import lentil.extent as _ext
+    for _ in range(60):
+        sh_ = (rng.randint(1, 6), rng.randint(1, 6))
+        off_ = (rng.randint(-4, 4), rng.randint(-4, 4))
+        par_ = (rng.randint(4, 12), rng.randint(4, 12))
+        want0 = (-(sh_[0] // 2) + off_[0], -(sh_[0] // 2) + off_[0] + sh_[0] - 1, -(sh_[1] // 2) + off_[1], -(sh_[1] // 2) + off_[1] + sh_[1] - 1)
+        wantp = (want0[0] + par_[0] // 2, want0[1] + par_[0] // 2, want0[2] + par_[1] // 2, want0[3] + par_[1] // 2)
+        ctx.case(('extent-queries', sh_, off_, par_))
+        order = rng.choice((('plain', 'parent', 'plain'), ('parent', 'plain', 'parent'), ('parent', 'parent', 'plain')))
+        got = []
+        for what in order:
+            r_ = _ext.array_extent(sh_, off_) if what == 'plain' else _ext.array_extent(sh_, off_, parent_shape=par_)
+            got.append((what, tuple(int(v) for v in r_)))
+        fe_ = tuple(int(v) for v in lentil.field.Field(np.ones(sh_), offset=list(off_)).extent) if sh_ != (1, 1) else want0
+        if any(g_ != (want0 if w_ == 'plain' else wantp) for w_, g_ in got) or fe_ != want0:
+            ctx.violation({'kind': 'extent-query-depends-on-earlier-queries', 'order': '-'.join(order)},
+                          {'shape': list(sh_), 'offset': list(off_), 'parent_shape': list(par_), 'answers': got, 'field_extent': fe_, 'expected_plain': want0, 'expected_in_parent': wantp}, case=None)
     bad = validate_trace(ctx, 'Trace_C06', events, nparts=12)
     byid = {e['id']: e for e in events}
     for eid, clauses in bad:
